@@ -662,6 +662,17 @@ def fixed_templates():
     for name, P, goals in T:
         items.append({"id": "tmpl-" + name, "text": gen.render(P), "T": P, "params": [], "types": None, "points": [{}],
                       "goals": more_goals(goals, P["vars"]), "origin": "fixed template " + name})
+    # hierarchical random initialisation: the text uses a draw whose parameter mentions an earlier initial draw, the
+    # abstract program spells the same law out with a branch (which Polar's own syntax does not allow in the initial block)
+    xeq0 = ("atom", [(F(1), V("x"))], "==", [])
+    hier = {"vars": ["c", "s", "x"], "s0": {}, "guard": ("true",),
+            "init": [("draw", "x", ("bernoulli", F(1, 2)), ("true",), "x"),
+                     ("if", [xeq0], [[asg("c", [(F(1), ONE)])]], [("draw", "c", ("bernoulli", F(1, 2)), ("true",), "c")]),
+                     asg("s", [])],
+            "body": [asg("s", [(F(1), V("s")), (F(1), (("c", 1), ("x", 1)))])]}
+    items.append({"id": "tmpl-hierarchical_init", "T": hier, "params": [], "types": None, "points": [{}], "fixed_text": True,
+                  "text": "x = Bernoulli(1/2)\nc = Bernoulli(1 - x/2)\ns = 0\nwhile true:\n    s = s + c*x\nend\n",
+                  "goals": ["c*x", "s", "c*s", "s**2", "c", "x"], "origin": "fixed template hierarchical_init"})
     return items
 
 
